@@ -33,7 +33,7 @@ var c12Modes = []string{"user", "peer", "peer+user", "detach"}
 var c12Maybe int
 
 // C12Cases is the size of the enumerated product.
-var C12Cases = len(c12Methods) * len(c12Modes) * 2 * 2 * 2 * 2 * 2
+var C12Cases = len(c12Methods) * len(c12Modes) * 2 * 2 * 2 * 2 * 2 * 2
 
 func runC12(e *Env) {
 	e.Setup(1, false)
@@ -44,13 +44,14 @@ func runC12(e *Env) {
 	callbacks := e.Bool()
 	twice := e.Bool()
 	reuse := e.Bool()
+	timed := e.Bool() // a read timeout and a write timeout are configured when the method is called
 	method := c12Methods[mi]
 	const stream = 12
 	nbuf := 0
 	if inputBuffered {
 		nbuf = 5
 	}
-	e.Summary = fmt.Sprintf("method=%s mode=%s input=%d outputPending=%v callbacks=%v twice=%v slotReused=%v", method, mode, nbuf, outputPending, callbacks, twice, reuse)
+	e.Summary = fmt.Sprintf("method=%s mode=%s input=%d outputPending=%v callbacks=%v twice=%v slotReused=%v timeouts=%v", method, mode, nbuf, outputPending, callbacks, twice, reuse, timed)
 	e.State = e.Summary
 
 	var conn *connection
@@ -127,6 +128,10 @@ func runC12(e *Env) {
 	}
 	done := 0
 	t := simrt.GoNamed("caller", false, func() {
+		if timed {
+			conn.SetReadTimeout(50 * time.Millisecond)
+			conn.SetWriteTimeout(50 * time.Millisecond)
+		}
 		for k := 0; k < calls; k++ {
 			c12Call(e, conn, method, stream, &readable, wantEOF, k)
 			done++
